@@ -583,6 +583,89 @@ def gen_control(rng):
           'css': css(), 'styles': styles(), 'tab_css': [css() for _ in range(n)]}
 
 
+JS_SIMPLE = {'n': '\n', 'r': '\r', 't': '\t', 'b': '\b', 'f': '\f', 'v': '\v', '0': '\0'}
+
+
+def js_read(code, start=0):
+  """A JavaScript double-quoted string-literal reader (ES2019), started just after the opening
+  quote (mirror of the Lean `jsRead`): (value, rest) or None (unterminated on its line, or an
+  escape this strict reader does not accept: \\x, \\u, digits 1-9, a line terminator after the backslash)."""
+  out, i, n = [], start, len(code)
+  while i < n:
+    c = code[i]
+    if c == '"':
+      return ''.join(out), code[i + 1:]
+    if c in '\n\r':
+      return None
+    if c == '\\':
+      if i + 1 >= n:
+        return None
+      d = code[i + 1]
+      if d in JS_SIMPLE:
+        out.append(JS_SIMPLE[d])
+      elif d in 'xu123456789\n\r\u2028\u2029':
+        return None
+      else:
+        out.append(d)
+      i += 2
+      continue
+    out.append(c)
+    i += 1
+  return None
+
+
+JS_ASSIGN = re.compile(r'(?:elem|style)\.(\w+)\s*=\s*"')
+JS_INSERT = re.compile(r'insertAdjacentHTML\(\s*"\w+",\s*"')
+
+
+def js_literals(script):
+  """The user-text literals of an update script: [(target, text after the opening quote, expected tail)]."""
+  out = []
+  for m in JS_ASSIGN.finditer(script):
+    out.append((m.group(1), script[m.end():], ';'))
+  for m in JS_INSERT.finditer(script):
+    out.append(('insertAdjacentHTML', script[m.end():], ');'))
+  return out
+
+
+JS_HOSTILE = ['\\', '\\"', '"', '\\n', '\n', '\r', '\t', '\\\\', "'", '</script>', '\u2028', '\u2029', '\x00',
+              '\\"; alert(document.cookie); //', 'C:\\temp\\new', '\\d+\\.\\d*', '\\u0041', '\\x41', '\\1', '<!--',
+              '${x}', '`', '\\\n', '\\\r']
+
+
+def gen_js_string(rng):
+  n = rng.weighted([(2, 1), (3, 2), (2, 3), (1, 5)])
+  parts = [rng.choice(JS_HOSTILE) if rng.chance(0.7) else rng.choice(BENIGN + HOSTILE) for _ in range(n)]
+  if rng.chance(0.2):
+    parts.append('\\')          # trailing backslash
+  return ''.join(parts)
+
+
+def gen_update(rng):
+  k = rng.below(10)
+  t = lambda: gen_js_string(rng)
+  if k < 4:
+    return {'op': 'update', 'kind': 'label', 'text': 'initial', 'tooltip': 'tip' if rng.chance(0.7) else None,
+            'link': 'http://x' if rng.chance(0.5) else None,
+            'new_text': t() if rng.chance(0.8) else None, 'new_tooltip': t() if rng.chance(0.5) else None,
+            'new_link': rng.choice(['http://y/z', 'http://y/?a=1&b=2', t()]) if rng.chance(0.25) else None,
+            'new_styles': [[rng.choice(['color', 'font_family']), rng.choice(['red', '3px', '"Arial"', t()])]]
+                          if rng.chance(0.2) else None}
+  if k < 6:
+    return {'op': 'update', 'kind': 'tooltip', 'text': 'tip', 'new_text': t()}
+  if k < 9:
+    n = rng.randint(1, 2)
+    return {'op': 'update', 'kind': rng.choice(['tab_append', 'tab_insert']), 'labels': ['first', 'second'][:n],
+            'new_label': t(),
+            'new_content': rng.choice([
+                {'t': 'pgdict', 'items': [['path', {'t': 'str', 'v': t()}], ['note', {'t': 'str', 'v': t()}]]},
+                {'t': 'dict', 'items': [[t() or 'k', {'t': 'int', 'v': 1}]]},
+                {'t': 'str', 'v': t()}])}
+  n = rng.randint(1, 2)
+  return {'op': 'update', 'kind': 'progress', 'names': [t() or 'x' for _ in range(n)], 'total': 10,
+          'increments': [rng.randint(1, 3) for _ in range(n)]}
+
+
 CONTROL_ID = re.compile(r'control-\d+')
 
 
@@ -680,6 +763,10 @@ class C20(Prop):
       'hand-written vocabulary `libraryTags` (PgProps/C20.lean)',
   ]
   assumptions = ['class names of rendered objects are Python identifiers',
+                 'update scripts run in an ES2019 engine (U+2028 / U+2029 may occur raw inside a string literal) and '
+                 'are handed to the engine as script text (IPython.display.Javascript), not embedded in an HTML '
+                 '<script> element, so `</script>` inside a literal is harmless',
+                 'element ids, css class names and property names in update scripts are developer-chosen identifiers',
                  'uncollapse paths do not contain the key "$" (F19, property C10)']
 
   # -- generation ---------------------------------------------------------------------------
@@ -729,6 +816,12 @@ class C20(Prop):
                   yield {'op': 'render', 'value': v, 'opts': o}
     for _ in range(160 if quick else 3000):
       yield gen_control(rng)
+    for x in JS_HOSTILE + HOSTILE:
+      yield {'op': 'jsescape', 's': x}
+    for _ in range(200 if quick else 4000):
+      yield {'op': 'jsescape', 's': gen_js_string(rng)}
+    for _ in range(200 if quick else 3000):
+      yield gen_update(rng)
 
   # -- model side ---------------------------------------------------------------------------
   def model_request(self, case):
@@ -764,6 +857,15 @@ class C20(Prop):
       return {'op': 'render', 'opts': wire_opts, 'tree': tree}
     if op == 'control':
       return self._control_request(case)
+    if op == 'jsescape':
+      return {'op': 'jsescape', 's': cps(case['s'])}
+    if op == 'update':
+      # the literals the real code emits for this update (obtained in this process; addresses renumbered)
+      self.setup_impl()
+      out = self._impl_update(case)
+      if 'lits' not in out:
+        return None
+      return {'op': 'jsread', 'literals': [cps(canon_ids(l['raw'])) for l in out['lits']]}
     return None
 
   def _control_request(self, case):
@@ -1027,7 +1129,93 @@ class C20(Prop):
       return self._impl_render(case)
     if op == 'control':
       return self._impl_control(case)
+    if op == 'jsescape':
+      e = Html.escape(case['s'], javascript_str=True)
+      r = js_read(e + '"')
+      return {'model': {'escaped': cps(e), 'read': None if r is None else {'value': cps(r[0]), 'rest': cps(r[1])}},
+              'escaped': e, 'read': r}
+    if op == 'update':
+      return self._impl_update(case)
     raise ValueError(op)
+
+  def _impl_update(self, case):
+    """Renders an interactive control, performs an update and reads every user-text literal of the
+    emitted scripts the way a JavaScript engine would."""
+    import pyglove as pg
+    from pyglove.core.views.html import controls
+    k = case['kind']
+    expected = []          # (target, expected value | ('contains', fragment))
+    try:
+      if k == 'label':
+        c = controls.Label(case['text'], tooltip=case.get('tooltip'), link=case.get('link'), interactive=True)
+        c.to_html()
+        with c.track_scripts() as scripts:
+          kw = {}
+          if case.get('new_text') is not None:
+            kw['text'] = case['new_text']
+            expected.append(('textContent', case['new_text']))
+          if case.get('new_styles'):
+            kw['styles'] = {a: b for a, b in case['new_styles']}
+            expected.append(('style', pg.Html.style_str(kw['styles'])))
+          if case.get('new_link') is not None:
+            kw['link'] = case['new_link']
+            expected.append(('href', case['new_link']))
+          if case.get('new_tooltip') is not None and case.get('tooltip') is not None:
+            kw['tooltip'] = case['new_tooltip']
+            expected.append(('textContent', case['new_tooltip']))
+          c.update(**kw)
+        synced = ((case.get('new_text') is None or c.text == case['new_text'])
+                  and ('tooltip' not in kw or c.tooltip.content == kw['tooltip']))
+      elif k == 'tooltip':
+        c = controls.Tooltip(case['text'], for_element='.x', interactive=True)
+        c.to_html()
+        with c.track_scripts() as scripts:
+          c.update(case['new_text'])
+        expected.append(('textContent', case['new_text']))
+        synced = c.content == case['new_text']
+      elif k in ('tab_append', 'tab_insert'):
+        c = controls.TabControl([controls.Tab(l, pg.Html('<div>%s</div>' % l)) for l in case['labels']])
+        c.to_html()
+        content = pg.to_html(self._build(case['new_content']), collapse_level=None)
+        tab = controls.Tab(case['new_label'], content)
+        with c.track_scripts() as scripts:
+          if k == 'tab_append':
+            c.append(tab)
+          else:
+            c.insert(0, tab)
+        expected.append(('insertAdjacentHTML', ('contains', pg.Html.escape(case['new_label']))))
+        expected.append(('insertAdjacentHTML', ('contains', content.content)))
+        synced = len(c.tabs) == len(case['labels']) + 1
+      else:
+        subs = [controls.SubProgress(n) for n in case['names']]
+        c = controls.ProgressBar(subprogresses=subs, total=case['total'])
+        c.to_html()
+        values = [0] * len(subs)
+        with c.track_scripts() as scripts:
+          for i, (sp, d) in enumerate(zip(subs, case['increments'])):
+            sp.increment(d)
+            values[i] += d
+            total = case['total']
+            done = sum(values)
+            expected.append(('style', 'width:%s;' % format(values[i] / total, '.0%')))
+            expected.append(('textContent', '%s (%d/%d)' % (format(done / total, ' .1%'), done, total)))
+            expected.append(('textContent', '\n'.join(
+                '%s: %s (%d/%d)' % (n, format(v / total, '.1%'), v, total) for n, v in zip(case['names'], values))))
+        synced = True
+    except Exception as e:   # pylint: disable=broad-except
+      return {'error': type(e).__name__, 'message': str(e)[:200]}
+    lits = []
+    for sc in scripts:
+      for target, text, tail in js_literals(sc):
+        if target == 'insertAdjacentHTML' or target in ('textContent', 'innerHTML', 'style', 'href'):
+          r = js_read(text)
+          lits.append({'target': target, 'raw': text,
+                       'value': None if r is None else r[0],
+                       'tail_ok': r is not None and r[1].split('\n', 1)[0].strip() == tail if target != 'insertAdjacentHTML'
+                                  else (r is not None and r[1].strip() == tail)})
+    return {'lits': lits, 'expected': [[t, list(v) if isinstance(v, tuple) else v] for t, v in expected],
+            'synced': synced,
+            'model': {'reads': [None if l['value'] is None else canon_ids(l['value']) for l in lits]}}
 
   def _impl_render(self, case):
     import pyglove as pg
@@ -1203,6 +1391,18 @@ class C20(Prop):
       if a['escaped'] != model_out['escaped']:
         return 'escape differs: impl=%r model=%r' % (impl_out['escaped'], uncps(model_out['escaped']))
       return None
+    if op == 'jsescape':
+      if a['escaped'] != model_out['escaped']:
+        return 'javascript escape differs: impl=%r model=%r' % (impl_out['escaped'], uncps(model_out['escaped']))
+      if a['read'] != model_out['read']:
+        return 'JS literal readers differ on %r: python=%s lean=%s' % (impl_out['escaped'], a['read'], model_out['read'])
+      return None
+    if op == 'update':
+      b = [None if r is None else uncps(r['value']) for r in model_out['reads']]
+      if a['reads'] != b:
+        return 'JS literal readers differ on the update scripts: python=%s lean=%s' % (
+            json.dumps(a['reads'])[:300], json.dumps(b)[:300])
+      return None
     if op == 'parse':
       b = doc_from_wire(model_out['doc'])
       if a['doc'] != b:
@@ -1235,6 +1435,19 @@ class C20(Prop):
       return None
     if op in ('parse', 'element'):
       return None
+    if op == 'jsescape':
+      r = out['read']
+      if r is None:
+        return {'signature': 'js-literal-unreadable',
+                'what': 'Html.escape(%r, javascript_str=True) = %r is not a terminated JS string literal' % (case['s'], out['escaped'])}
+      if r[1] != '':
+        return {'signature': 'js-literal-ends-early',
+                'what': 'the literal for %r ends early; %r is left over as script' % (case['s'], r[1])}
+      if r[0] != case['s']:
+        return {'signature': 'js-literal-not-faithful', 'what': 'the literal for %r denotes %r' % (case['s'], r[0])}
+      return None
+    if op == 'update':
+      return self._oracle_update(case, out)
     if op == 'control':
       return self._oracle_control(case, out)
     # render
@@ -1288,6 +1501,41 @@ class C20(Prop):
       return {'signature': 'value-modified', 'what': 'pg.to_json(value) changed by rendering'}
     return None
 
+  def _oracle_update(self, case, out):
+    k = case['kind']
+    if 'error' in out:
+      return {'signature': 'update-raises:%s:%s' % (k, out['error']), 'what': out.get('message')}
+    lits = out['lits']
+    for l in lits:
+      if l['value'] is None or not l['tail_ok']:
+        tgt = l['target']
+        return {'signature': 'js-literal-broken:' + tgt,
+                'what': '%s update: the JS string literal for `%s` is not terminated where the code closed it '
+                        '(user text ends the literal early or swallows the closing quote): %r' % (
+                            k, tgt, l['raw'][:120])}
+    pool = list(lits)
+    for target, want in out['expected']:
+      hit = None
+      for l in pool:
+        if l['target'] != target:
+          continue
+        if isinstance(want, list):
+          if want[1] in l['value']:
+            hit = l
+            break
+        elif l['value'] == want:
+          hit = l
+          break
+      if hit is None:
+        return {'signature': 'js-literal-not-faithful:' + target,
+                'what': '%s update: no `%s` literal denotes %r; literals read: %r' % (
+                    k, target, want, [x['value'][:80] for x in lits if x['target'] == target])}
+      if not isinstance(want, list):
+        pool.remove(hit)
+    if not out['synced']:
+      return {'signature': 'update-members-out-of-sync', 'what': 'control members differ from the updated text'}
+    return None
+
   def _oracle_control(self, case, out):
     k = case['kind']
     if 'error' in out:
@@ -1307,6 +1555,10 @@ class C20(Prop):
     op = case['op']
     if op in ('escape', 'parse'):
       return has_meta(case['s'])
+    if op == 'jsescape':
+      return any(c in case['s'] for c in '\\"\n\r\t')
+    if op == 'update':
+      return any(c in json.dumps(case) for c in '\\')
     if op == 'element':
       return any(has_meta(c) for c in case['children'])
     if op == 'render':
@@ -1327,6 +1579,18 @@ class C20(Prop):
                              'well-formed' if out['model']['doc'] is not None else 'malformed-children'))
     elif op == 'control':
       h.append('control:' + case['kind'])
+    elif op == 'update':
+      h.append('update:' + case['kind'])
+      h.append('update-literals:%d' % len(out.get('lits', [])))
+    elif op == 'jsescape':
+      s_ = case['s']
+      for name, ch in (('backslash', '\\'), ('quote', '"'), ('newline', '\n'), ('cr', '\r'), ('tab', '\t')):
+        if ch in s_:
+          h.append('js:has-' + name)
+      if s_.endswith('\\'):
+        h.append('js:trailing-backslash')
+      if '\\"' in s_:
+        h.append('js:backslash-before-quote')
     elif op == 'render':
       v, o = case['value'], full_opts(case['opts'])
       h.append('root:' + v['t'])
